@@ -98,8 +98,10 @@ func randDataset(r *Rng) (*ld.RDFDataset, []string) {
 		graphs = append(graphs, "_:c14n1")
 		tags = append(tags, "named-graph")
 	}
-	if r.Chance(8) {
+	if r.Chance(30) {
+		// a second named graph: containment chains and cycles that run through graph names
 		graphs = append(graphs, "_:c14n0")
+		tags = append(tags, "two-named-graphs")
 	}
 	if r.Chance(3) {
 		graphs = graphs[1:] // no default graph
